@@ -2,7 +2,7 @@
 from fractions import Fraction
 
 from .pdb import strip, walk, loc
-from .terms import Ctx
+from .terms import Ctx, show
 from .common import P, F, forwards_to, callee_path
 from .algebra import SymExec, NotStraight, rat_equal, comm_equal, show_tree, neg
 
@@ -207,6 +207,41 @@ def run(rep, pdb, tier):
         t = ctx.term(strip(fn["body"]))
         ok = t[0] == "call" and str(t[1]).endswith("atan2") and t[2:] == (F(P(0), "imag"), F(P(0), "real"))
         rep.add(key, rule, ok, fn["body"], "", where=loc(fn["body"]))
+    # ---- the element-type traits of src/traits.rs (every generic container compares magnitudes through Signed::abs and
+    # starts sums / products from Zero::zero / One::one)
+    rule = "Signed::abs for Complex<f64> is (|z|, 0) with |z| the modulus Complex::abs"
+    fn = pdb.fn("<complex::Complex<f64> as traits::Signed>::abs")
+    if fn is None:
+        rep.missing("element-traits/Signed/Complex", rule, "impl not found")
+    else:
+        try:
+            t = SymExec(pdb, fn).run()
+            ok = t is not None and t[0] == "cplx" and t[1] == ("ccall", "complex::Complex<f64>::abs", ("in", ("param", 0))) and t[2] == ("num", Fraction(0))
+            det = show_tree(t) if t is not None else "None"
+        except NotStraight as ex:
+            ok, det = False, str(ex)
+        rep.add("element-traits/Signed/Complex", rule, ok, fn["body"], det, where=loc(fn["body"]))
+    n_prim = 0
+    for f in pdb.local_fns():
+        tr, st = f.get("impl_trait"), f.get("impl_self")
+        if f.get("file") != "src/traits.rs" or tr not in ("traits::Signed", "traits::Zero", "traits::One") or st is None or "Complex" in st:
+            continue
+        ctx = Ctx.for_fn(pdb, f)
+        t = ctx.term(strip(f["body"]))
+        if tr == "traits::Signed":
+            r_ = "Signed::abs for a primitive type is `if x < 0 { -x } else { x }`"
+            z = t[1][3] if t[0] == "ite" and t[1][0] == "op" and len(t[1]) == 4 else None
+            from .terms import lin_scale
+            negs = (("neg", P(0)), lin_scale(P(0), -1))
+            ok = t[0] == "ite" and t[1][0] == "op" and t[1][1] == "<" and t[1][2] == P(0) and z is not None and z[0] == "num" and z[1] == 0 and \
+                t[2] in negs and t[3] == P(0)
+        else:
+            want = 0 if tr == "traits::Zero" else 1
+            r_ = "%s for a primitive type is the literal %d" % (tr.split("::")[-1], want)
+            ok = t[0] == "num" and t[1] == want
+        rep.add("element-traits/%s/%s" % (tr.split("::")[-1], st), r_, ok, f["body"], show(t, ctx)[:80], where=loc(f["body"]))
+        n_prim += 1
+    rep.floor("element-traits/", 20)
     rep.floor("field/", 14)
     rep.floor("assign-bit-identical/", 8)
     rep.floor("stale-read/", 2)
